@@ -29,6 +29,9 @@ def run(model, rep, tier):
     rep.rule('lock-step', 'parallel lists (network, jump type, star pair) are appended / popped together')
     rep.rule('outer-shell-by-membership', 'outerkin = kinetic stars whose representative is not a thermodynamic state')
     rep.rule('pruning-predicate', 'a jump class is dropped only if both its stars lie outside the thermodynamic range')
+    # the networks are rebuilt from the current star set on every generate(): nothing indexed into kinetic.states survives
+    from ._common import memoryless_setters
+    memoryless_setters(model, rep, [('OnsagerCalc', 'VacancyMediated', 'generate')])
     mod = model.mod('crystalStars')
     ci = model.cls('crystalStars', 'StarSet')
     sj = ci.methods.get('symmequivjumplist')
@@ -155,6 +158,7 @@ def run(model, rep, tier):
 
 CS, OC = 'onsager/crystalStars.py', 'onsager/OnsagerCalc.py'
 BREAKERS = [
+    (OC, "        self.om2_jn, self.om2_jt, self.om2_SP = self.kinetic.jumpnetwork_omega2()", "        if not hasattr(self, 'om2_jn'):\n            self.om2_jn, self.om2_jt, self.om2_SP = self.kinetic.jumpnetwork_omega2()", 'state-reuse-keyed'),
     (CS, "                if gi != gf: symmjumplist.append(((gf, gi), -gdx))", "                if gi != gf: symmjumplist.append(((gf, gi), gdx))", 'reversal-pairing'),
     (CS, "        if i != f: symmjumplist.append(((f, i), -dx))", "        pass", 'reversal-pairing'),
     (CS, "                    dx = PSf.dx - PSi.dx", "                    dx = PSf.dx", 'displacement-provenance'),
